@@ -136,5 +136,20 @@ CHECKS['C19'] = dict(
     note='trusted: casefold uninterpreted, zipfile and VPK I/O, pyvc; for names differing only in case the backends '
          'may keep different candidates (container order) - accepted; backslash spellings on a real directory are host '
          'dependent and not required.')
+CHECKS['C07'] = dict(
+    category='proof',
+    technique='contract-based deductive verification: pyvc proof that the index invariant is preserved by the real '
+              'Entity.__setitem__ / __delitem__ code over symbolic index maps (quantified arrays, uninterpreted casefold; '
+              'z3 4.8 / 5.1 / cvc5); bounded operation histories',
+    text='Invariant I - by_class / by_target, read case-insensitively with missing keys as empty sets, equal the sets '
+         'computed from every entity\'s current classname / targetname - is proved to be preserved by the real '
+         'Entity.__setitem__ (classname and targetname, any key spelling, entity in the map / not in the map / the '
+         'worldspawn entity, which is also proved to stay worldspawn or raise) and Entity.__delitem__, for arbitrary '
+         'symbolic index maps, other entities, old and new values. add_ent/add_ents/remove_ent, pop, clear, update, '
+         'setdefault, make_unique, copies across maps, parsing, search() and iteration while mutating are covered by '
+         'bounded operation histories comparing the indexes with a scan after every step.',
+    note='trusted: casefold as an uninterpreted idempotent function agreeing with str.casefold on the literals used, '
+         'defaultdict(CopySet) abstracted as a total map, membership in vmf.entities as a set, pyvc; vacuity covers '
+         'under quantified hypotheses are inconclusive (recorded); CopySet iteration and VMF.parse bounded-only.')
 _PENDING = 'not yet built in this session (planned, see DESIGN.md section 3); no check is registered so nothing is claimed'
 NOT_APPLICABLE = {f'C{i:02d}': _PENDING for i in range(1, 21) if f'C{i:02d}' not in CHECKS}
